@@ -2,6 +2,8 @@
 
 package shmipc
 
+import "os"
+
 // Intrinsics of the symbolic executor (gosmt). Body-less: the executor intercepts the calls.
 // For native replay zz_verif_rt.go provides bodies instead (build tag verifreplay).
 
@@ -36,3 +38,7 @@ func vfStallHookOff()
 func vfInfeasibleOK()
 func vfRunGoroutines()
 func vfSyncHook(cut int, f func())
+
+// c12NewFile: the descriptor getConnDupFd yields for party w. Symbolic run: an empty os.File whose
+// Fd is answered by a stub (10 / 20); native replay: one end of a real pipe.
+func c12NewFile(w int) *os.File { return &os.File{} }
